@@ -252,6 +252,41 @@ theorem step_refines (s : State) (op : Op) (h : Inv s) :
     exact stepA s v (fun t => t.get i) (fun xs => Spec.get xs i) (by intro t ht; exact AState.get_good t ht i) h
   | afront v => exact stepA s v (fun t => t.front) Spec.front (by intro t ht; exact AState.front_good t ht) h
   | aback v => exact stepA s v (fun t => t.back) Spec.back (by intro t ht; exact AState.back_good t ht) h
+  | lappendself v =>
+    exact stepL s v (fun t => (t.insertList t.size t.vals).map (fun x => { x with ret := none }))
+      (fun xs => Spec.const (xs ++ xs))
+      (by intro t; rw [obsL_map_noRet, LState.insertList_refines, LState.size_eq,
+            insert_const _ _ _ (Nat.le_refl _)]; simp) h
+  | lprependself v =>
+    exact stepL s v (fun t => (t.insertList 0 t.vals).map (fun x => { x with ret := none }))
+      (fun xs => Spec.const (xs ++ xs))
+      (by intro t; rw [obsL_map_noRet, LState.insertList_refines, insert_const _ _ _ (Nat.zero_le _)]; simp) h
+  | linsertself v pos =>
+    exact stepL s v (fun t => t.insertList pos t.vals) (fun xs => Spec.insert xs pos xs)
+      (by intro t; exact LState.insertList_refines t pos _) h
+  | lassignself v =>
+    unfold step Spec.step StepOk obsS
+    by_cases hv : v < 2
+    · simp [hv, h]
+    · simp [hv]
+  | aappendself v =>
+    exact stepA s v (fun t => t.appendSelf) (fun xs => Spec.const (xs ++ xs))
+      (by intro t ht; exact AState.appendSelf_good t ht) h
+  | aappendref v i =>
+    exact stepA s v (fun t => t.appendRef i) (fun xs => match xs[i]? with
+        | some x => Spec.insert xs xs.length [x]
+        | none => none)
+      (by intro t ht; exact AState.appendRef_good t ht i) h
+  | aresizeref v n i =>
+    exact stepA s v (fun t => t.resizeRef n i) (fun xs => match xs[i]? with
+        | some x => Spec.resize xs n x
+        | none => none)
+      (by intro t ht; exact AState.resizeRef_good t ht n i) h
+  | aassignself v =>
+    unfold step Spec.step StepOk obsS
+    by_cases hv : v < 2
+    · simp [hv, h]
+    · simp [hv]
   | aeq v w =>
     unfold step Spec.step StepOk obsS
     by_cases hv : v < 2 ∧ w < 2
